@@ -357,4 +357,148 @@ theorem initRun_serializable (db : DB V) (hw : WF db) (marker : Key) (mark : V) 
       obtain ⟨_, hdb'⟩ := commit_some hc
       rw [hdb', hwr, hcr, hw2, hc2]
 
+/-! ## what a committed Init leaves behind (refinement to the sequential reading) -/
+
+/-- after a commit a key holds the transaction's newest write to it, or what it held before -/
+theorem get_commit {now : DB V} (hw : WF now) {t : T V} {db' : DB V} (h : commit now t = some db') (k : Key) :
+    db'.get k = match t.writes.find? (fun e => e.1 == k) with
+      | some e => e.2
+      | none => now.get k := by
+  obtain ⟨_, rfl⟩ := commit_some h
+  cases hf : t.writes.find? (fun e => e.1 == k) with
+  | none =>
+    have hk : k ∉ t.writes.map (·.1) := by
+      intro hin
+      obtain ⟨e, he, hek⟩ := List.mem_map.mp hin
+      have := List.find?_eq_none.mp hf e he
+      simp [hek] at this
+    simpa using get_commit_notin hw h hk
+  | some e =>
+    simp only []
+    unfold DB.get DB.getAt
+    simp only [List.find?_append, List.find?_map]
+    have : (List.find? ((fun e : Key × Nat × Option V => e.1 == k && decide (e.2.1 ≤ now.clock + 1)) ∘
+        fun e : Key × Option V => (e.1, now.clock + 1, e.2)) t.writes) = some e := by
+      rw [← hf]
+      apply find?_congr'
+      intro x _
+      simp
+    rw [this]
+    rfl
+
+/-- the seeding loop writes a seed exactly when the key was free in the snapshot (keys of the seed set
+distinct, none of them written by the transaction before) -/
+theorem seedLoop_find (db : DB V) (t : T V) (seeds : List (Key × V)) (k : Key)
+    (hnd : (seeds.map (·.1)).Nodup) (hfresh : ∀ k' ∈ seeds.map (·.1), k' ∉ t.writes.map (·.1)) :
+    (seedLoop db t seeds).1.writes.find? (fun e => e.1 == k) =
+      match seeds.find? (fun s => s.1 == k) with
+      | some s => if (db.getAt t.start k).isNone then some (k, some s.2) else t.writes.find? (fun e => e.1 == k)
+      | none => t.writes.find? (fun e => e.1 == k) := by
+  induction seeds generalizing t with
+  | nil => rfl
+  | cons s r ih =>
+    obtain ⟨k0, v0⟩ := s
+    simp only [List.map_cons, List.nodup_cons] at hnd
+    have hk0 : k0 ∉ t.writes.map (·.1) := hfresh k0 (by simp)
+    have hget : (t.get db k0).2 = db.getAt t.start k0 := by
+      have : t.writes.find? (fun e => e.1 == k0) = none := by
+        rw [List.find?_eq_none]
+        intro e he hek
+        exact hk0 (List.mem_map.mpr ⟨e, he, by simpa using hek⟩)
+      simp [T.get, this]
+    simp only [seedLoop, hget]
+    by_cases hkk : k0 = k
+    · subst hkk
+      have hr : r.find? (fun s => s.1 == k0) = none := by
+        rw [List.find?_eq_none]
+        intro e he hek
+        exact hnd.1 (List.mem_map.mpr ⟨e, he, by simpa using hek⟩)
+      cases hs : db.getAt t.start k0 with
+      | some x =>
+        simp only [List.find?_cons, beq_self_eq_true, hs, Option.isNone_some]
+        have := ih (t.get db k0).1 hnd.2 (fun k' hk' => by
+          rw [get_writes]; exact hfresh k' (by simp [hk']))
+        rw [this, hr]
+        simp [get_writes]
+      | none =>
+        simp only [List.find?_cons, beq_self_eq_true, hs, Option.isNone_none]
+        have := ih ((t.get db k0).1.set k0 (some v0)) hnd.2 (fun k' hk' => by
+          simp only [T.set, get_writes, List.map_cons, List.mem_cons, not_or]
+          exact ⟨fun e => hnd.1 (e ▸ hk'), hfresh k' (by simp [hk'])⟩)
+        rw [this, hr]
+        simp [T.set, get_writes]
+    · have hne : (k0 == k) = false := by simpa using hkk
+      cases hs : db.getAt t.start k0 with
+      | some x =>
+        simp only [List.find?_cons, hne]
+        have := ih (t.get db k0).1 hnd.2 (fun k' hk' => by
+          rw [get_writes]; exact hfresh k' (by simp [hk']))
+        rw [this]
+        simp [get_writes, get_start]
+      | none =>
+        simp only [List.find?_cons, hne]
+        have := ih ((t.get db k0).1.set k0 (some v0)) hnd.2 (fun k' hk' => by
+          simp only [T.set, get_writes, List.map_cons, List.mem_cons, not_or]
+          exact ⟨fun e => hnd.1 (e ▸ hk'), hfresh k' (by simp [hk'])⟩)
+        rw [this]
+        simp [T.set, get_writes, get_start, List.find?_cons, hne]
+
+/-- with nobody else writing, a transaction's commit cannot conflict -/
+theorem commit_alone {db : DB V} (hw : WF db) (t : T V) (hs : t.start = db.clock) :
+    commit db t = some { clock := db.clock + 1, vers := t.writes.map (fun e => (e.1, db.clock + 1, e.2)) ++ db.vers } := by
+  unfold commit
+  have : (t.reads.any fun k => decide (db.lastTs k > t.start)) = false := by
+    rw [List.any_eq_false]
+    intro k _
+    have := lastTs_le hw k
+    rw [hs]
+    simpa using this
+  simp only [this]
+  rfl
+
+/-- **what Init leaves behind when it runs alone**: nothing changes once the marker is set; otherwise the
+marker is set, every seed whose id was free holds the seed value, every id that existed keeps its value,
+and nothing else is touched — the sequential `initOnce` -/
+theorem initAlone_get (db : DB V) (hw : WF db) (marker : Key) (mark : V) (seeds : List (Key × V))
+    (hnd : (seeds.map (·.1)).Nodup) (k : Key) (hk : k ≠ marker) :
+    (initAlone db marker mark seeds).2.1 = true ∧
+    (initAlone db marker mark seeds).1.get k =
+      (if (db.get marker).isSome then db.get k
+       else match seeds.find? (fun s => s.1 == k) with
+         | some s => (match db.get k with | some old => some old | none => some s.2)
+         | none => db.get k) ∧
+    ((db.get marker).isNone → (initAlone db marker mark seeds).1.get marker = some mark) := by
+  unfold initAlone initRun
+  simp only [DB.putAll]
+  cases hp : initProg db marker mark seeds with
+  | none =>
+    have h1 := initProg_none hp
+    simp only [h1, if_true]
+    refine ⟨trivial, trivial, fun h => ?_⟩
+    rw [Option.isNone_iff_eq_none] at h
+    rw [h] at h1; cases h1
+  | some tc =>
+    obtain ⟨t, created⟩ := tc
+    obtain ⟨hmn, hs, hwr, _, _, _⟩ := initProg_some hp
+    have hc := commit_alone hw t hs
+    simp only [hc]
+    have hc' : commit db t = some { clock := db.clock + 1, vers := t.writes.map (fun e => (e.1, db.clock + 1, e.2)) ++ db.vers } := hc
+    have hne : (marker == k) = false := by simpa using fun e => hk e.symm
+    refine ⟨trivial, ?_, fun _ => ?_⟩
+    · rw [get_commit hw hc' k, hwr]
+      simp only [List.find?_cons, hne, hmn, Option.isSome_none, Bool.false_eq_true, if_false]
+      rw [seedLoop_find db _ seeds k hnd (by intro k' _; simp [T.get, begin])]
+      have hst : ((begin db).get db marker).1.start = db.clock := rfl
+      have hw0 : ((begin db).get db marker).1.writes = [] := rfl
+      rw [hst, hw0]
+      cases seeds.find? (fun s => s.1 == k) with
+      | none => rfl
+      | some s0 =>
+        simp only [List.find?_nil]
+        cases hg : db.getAt db.clock k with
+        | none => simp [DB.get, hg]
+        | some old => simp [DB.get, hg]
+    · rw [get_commit hw hc' marker, hwr]
+      simp
+
 end GoRes.Txn
